@@ -142,11 +142,11 @@ func runC11(c *core.Ctx) {
 	c.Rule("C11.reset", resetText, 10)
 	checkReset(c)
 
-	c.Rule("C11.nodeoutside", "a builder or assembler never makes a node out of its own memory: no method of a NodeBuilder/NodeAssembler/MapAssembler/ListAssembler type converts the address of one of the receiver's own fields (at any depth, without loading a pointer on the way) into a datamodel.Node - such a node would change when the builder is reset or reused", 1)
+	c.Rule("C11.nodeoutside", "a builder, assembler or iterator never makes a node out of its own memory: no method of a NodeBuilder/NodeAssembler/MapAssembler/ListAssembler/MapIterator/ListIterator type converts the address of one of the receiver's own fields (at any depth, without loading a pointer on the way) into a datamodel.Node - such a node would change when the builder is reset or reused, or when the iterator moves on", 1)
 	{
 		nodeI := p.Iface("datamodel", "Node")
 		var roles []*types.Interface
-		for _, n := range []string{"NodeBuilder", "NodeAssembler", "MapAssembler", "ListAssembler"} {
+		for _, n := range []string{"NodeBuilder", "NodeAssembler", "MapAssembler", "ListAssembler", "MapIterator", "ListIterator"} {
 			if i := p.Iface("datamodel", n); i != nil {
 				roles = append(roles, i)
 			}
@@ -319,6 +319,11 @@ func runC11(c *core.Ctx) {
 				if fn == nil || len(fn.Blocks) == 0 || fn.Synthetic != "" || len(fn.Params) == 0 {
 					continue
 				}
+				if !ms.At(i).Obj().Exported() {
+					// not callable by a user of the builder: an unexported method is a step of the exported ones (where it
+					// is looked at as part of their regions) or of a child assembler, which runs while this one is mid-way
+					continue
+				}
 				recv := fn.Params[0]
 				rg := core.RegionOf(fn)
 				isStateLoad := func(v ssa.Value) bool {
@@ -369,7 +374,7 @@ func runC11(c *core.Ctx) {
 		}
 	}
 
-	c.Rule("C11.sharedseeker", "an io.ReadSeeker kept in a field is shared (the node it came from, other views of it, hand out the same one), so its position is nobody's: every method of a library type that calls Read on a ReadSeeker held in a field of its receiver does so only after a Seek on that same field in the same activation, on every path", 1)
+	c.Rule("C11.sharedseeker", "an io.ReadSeeker kept in a field is shared (the node it came from, other views of it, hand out the same one), so its position is nobody's: every method of a library type that calls Read on a ReadSeeker held in a field of its receiver does so only after a Seek on that same field in the same activation, on every path; and no method returns the held ReadSeeker itself as an io.ReadSeeker result (a caller gets a reader with a position of its own)", 2)
 	{
 		nrs := 0
 		for _, fn := range p.ModFns {
@@ -417,6 +422,58 @@ func runC11(c *core.Ctx) {
 				path, reached := core.Reach(fn, nil, isTarget(ci), nil, isSeek)
 				c.Check(!reached, fmt.Sprintf("%s#seek-before-read:%s", core.FuncKey(fn), fld), p.Pos(ci.Pos()), "positions the shared reader before reading", "Read on the ReadSeeker held in "+fld+" is reachable without a Seek on it in this activation: the reader is shared with the node it came from, so after that node (or another view of it) was read this view returns other bytes than before - reads of a finished node are not repeatable", p.Witness(path)...)
 			}
+		}
+		// ... and it is never handed out as it is: whoever asks a node for a reader gets one of his own
+		for _, fn := range p.ModFns {
+			pk := core.FuncPkg(fn)
+			if pk == nil || !libraryPkg(core.RelPkg(pk.Path())) || len(fn.Blocks) == 0 || fn.Synthetic != "" || fn.Signature.Recv() == nil || len(fn.Params) == 0 {
+				continue
+			}
+			res := fn.Signature.Results()
+			if res.Len() == 0 {
+				continue
+			}
+			if nt := namedOfType(res.At(0).Type()); nt == nil || nt.Obj().Pkg() == nil || nt.Obj().Pkg().Path() != "io" || nt.Obj().Name() != "ReadSeeker" {
+				continue
+			}
+			recv := fn.Params[0]
+			bad := false
+			held := false
+			pos := fn.Pos()
+			for _, ret := range core.Returns(fn) {
+				for _, rv := range core.ResultValues(ret, 0) {
+					v := core.Strip(rv)
+					// a field of the receiver (value receiver: ssa.Field / load of the spilled copy; pointer receiver: load)
+					switch x := v.(type) {
+					case *ssa.Field:
+						if core.Strip(x.X) == ssa.Value(recv) || core.RegionOf(fn).Canon(x.X) == ssa.Value(recv) {
+							bad, held, pos = true, true, ret.Pos()
+						}
+					case *ssa.UnOp:
+						if fa, ok := x.X.(*ssa.FieldAddr); ok && x.Op == token.MUL {
+							root, _ := rootOfAddr(fa)
+							if core.RegionOf(fn).Canon(root) == ssa.Value(recv) || func() bool { al, ok := root.(*ssa.Alloc); return ok && al.Parent() == fn && len(fn.Params) > 0 }() {
+								bad, held, pos = true, true, ret.Pos()
+							}
+						}
+					}
+				}
+			}
+			// only methods of types that do hold a reader are of interest
+			if !held {
+				if st, ok := recv.Type().Underlying().(*types.Struct); ok {
+					for i := 0; i < st.NumFields(); i++ {
+						if nt := namedOfType(st.Field(i).Type()); nt != nil && nt.Obj().Pkg() != nil && nt.Obj().Pkg().Path() == "io" && nt.Obj().Name() == "ReadSeeker" {
+							held = true
+						}
+					}
+				}
+			}
+			if !held {
+				continue
+			}
+			nrs++
+			c.Check(!bad, core.FuncKey(fn)+"#reader-not-handed-out", p.Pos(pos), "hands out a reader of the caller's own", "the ReadSeeker the node holds is returned as it is: every caller gets the same instance at whatever position the last one left it - a second AsLargeBytes read returns nothing, and a reader handed out earlier is moved by later reads of the node")
 		}
 		if nrs == 0 {
 			c.Undecided("library#held-readseekers", "-", "no method reads from a ReadSeeker held in its receiver (the subset view of large bytes was expected)")
